@@ -76,6 +76,8 @@ def tmpdir():
 
 
 def tmppath(name):
+    if _TMP['dir'] is not None and not os.path.isdir(_TMP['dir']):
+        os.makedirs(_TMP['dir'], exist_ok=True)      # scratch directory removed from outside during a long run
     if _TMP.get('broken'):
         # history driver 'unwritable': every output path of the case lies in a directory that does not exist
         return os.path.join(tmpdir(), 'no_such_dir_%d' % os.getpid(), name)
